@@ -13,10 +13,11 @@ CFG = {'streams': [{'name': 'C08',
  'rule': 'generated files with 2-5 stanzas (as C01) x permutations of their stanzas x sources; graphs compared up to renumbering; non-trivial = at '
          'least 3 stanzas and a scoped variable is used',
  'explanation': 'Theorems. Reordering stanzas permutes the list of blocks (stanza, match) that run_lazy executes. WHOLE RUN on a fragment '
-                '(lazy_block_order_iso_partial, Proofs/BlockPerm*.v): if the run on ms succeeds then on every permutation ms\' the execution phase '
-                'succeeds with the same fuel, the evaluation phase succeeds from some evaluation fuel on, and the final graphs are isomorphic '
+                '(lazy_block_order_iso_partial, Proofs/BlockPerm*.v): if the run on ms succeeds then on every permutation ms\' the run succeeds from '
+                'some fuel on (same execution fuel, larger evaluation fuel: lazy_block_order_iso_two_fuels_partial) and the final graphs are isomorphic '
                 '(graph_iso r: r a bijection of node ids fixing the initial graph; attribute maps equal as maps after renaming node references; '
-                'edge vectors hold the renamed sinks); read both ways, success of one order implies success of every order. Parts: (1) '
+                'edge vectors hold the renamed sinks); lazy_block_order_fail_partial: an error or a panic for one order excludes success for every '
+                'other order at every fuel; lazy_fuel_mono_partial: fuel only decides between out-of-fuel and THE outcome. Parts: (1) '
                 'lazy_block_shift_partial / lazy_block_swap_partial: one block started at other graph/store sizes runs in lockstep and appends the '
                 'same delta with shifted ids (two-run simulation over the whole execution phase; acyclic thunk store, frame depth and parameter '
                 'buffer restored); (2) lazy_exec_phase_perm_partial: any permutation of the execution phase = the canonical deltas of the blocks '
@@ -29,8 +30,8 @@ CFG = {'streams': [{'name': 'C08',
              'communicate; the stretch STEP 4 with scoped-variable cells is not done), called functions graph-pure and equivariant under '
              'order-preserving renamings (all stdlib functions except node, format, join), globals only mention nodes of a closed initial graph, '
              'no debug attributes (with a location attribute an edge created by two stanzas keeps the attribute of the statement evaluated first: '
-             'the property as stated fails there), no cancellation budget. Fuel: the permuted run is stated with separate fuels (run_lazy2): same '
-             'execution fuel, large enough evaluation fuel; the single-fuel statement needs fuel monotonicity of the execution phase (not proved). '
+             'the property as stated fails there), no cancellation budget. The fuel needed by the permuted run may be larger (a thunk may be forced '
+             'first at a deeper nesting): the theorem gives success from some fuel on. '
              'Outside the fragment the whole-run statement is explored by the direct permutation stream'],
  'assumptions': ['tree-sitter queries are an external: raw matches are recorded by calling QueryCursor::matches directly on the stanza queries and '
                  'on the merged file query',
